@@ -243,6 +243,31 @@ fn literal_prefix_features(g: &GlobCase) -> (bool, bool) {
     (multibyte, escaped)
 }
 
+/// Literal text of the glob before its first wildcard token.
+fn literal_prefix(g: &GlobCase) -> String {
+    let mut s = String::new();
+    for t in &g.toks {
+        match t {
+            Tok::Lit(c) => s.push(*c),
+            Tok::Sep => s.push('/'),
+            _ => break,
+        }
+    }
+    s
+}
+
+/// True iff refusing directory string `d` is exactly what mixing up byte and character counts in
+/// the fixed-prefix comparison produces: the character-wise comparison accepts, the comparison
+/// that takes `min(byte lengths)` *characters* of `d` rejects.
+fn byte_char_mix_explains(lp: &str, d: &str, ic: bool) -> bool {
+    let (lp, d) = if ic { (lp.to_lowercase(), d.to_lowercase()) } else { (lp.to_string(), d.to_string()) };
+    let n_chars = std::cmp::min(lp.chars().count(), d.chars().count());
+    let good: String = d.chars().take(n_chars).collect();
+    let n_bytes = std::cmp::min(lp.len(), d.len());
+    let bad: String = d.chars().take(n_bytes).collect();
+    lp.starts_with(&good) && !lp.starts_with(&bad)
+}
+
 fn kinds_str(g: &GlobCase) -> String {
     let mut k: Vec<&str> = g.kinds.clone();
     k.sort();
@@ -342,8 +367,8 @@ fn check_glob(g: &GlobCase, ic: bool, paths: &[(String, Vec<char>)], agg: &mut A
                     if !ok {
                         agg.add(
                             format!(
-                                "\"kind\":\"prune_false_negative\",\"level\":\"pattern\",\"prefix_has_multibyte\":{},\"escaped_char_in_prefix\":{},\"ignore_case\":{}",
-                                mb, esc, ic
+                                "\"kind\":\"prune_false_negative\",\"level\":\"pattern\",\"prefix_has_multibyte\":{},\"byte_char_mix_explains\":{},\"escaped_char_in_prefix\":{},\"ignore_case\":{}",
+                                mb, byte_char_mix_explains(&literal_prefix(g), d, ic), esc, ic
                             ),
                             || format!("\"glob\":{},\"path\":{},\"dir\":{}", jstr(&g.src), jstr(ps), jstr(d)),
                         );
@@ -364,8 +389,14 @@ fn check_glob(g: &GlobCase, ic: bool, paths: &[(String, Vec<char>)], agg: &mut A
                 if !inc.matches_dir(&fclones::Path::from(d)) {
                     agg.add(
                         format!(
-                            "\"kind\":\"prune_false_negative\",\"level\":\"selector\",\"prefix_has_multibyte\":{},\"escaped_char_in_prefix\":{},\"ignore_case\":{}",
-                            mb, esc, ic
+                            "\"kind\":\"prune_false_negative\",\"level\":\"selector\",\"prefix_has_multibyte\":{},\"byte_char_mix_explains\":{},\"escaped_char_in_prefix\":{},\"ignore_case\":{}",
+                            mb,
+                            {
+                                let lp = if is_abs { literal_prefix(g) } else { format!("/w/{}", literal_prefix(g)) };
+                                byte_char_mix_explains(&lp, &format!("{}/", d), ic)
+                            },
+                            esc,
+                            ic
                         ),
                         || format!("\"glob\":{},\"path\":{},\"dir\":{}", jstr(&g.src), jstr(&abs), jstr(d)),
                     );
